@@ -13,10 +13,14 @@ skip_demo = "--skip-demo" in sys.argv
 WT = f"/tmp/seed-{sid}"
 OUT = f"/verif/seeded/{sid}"
 os.makedirs(OUT, exist_ok=True)
+prev_lv = {}
+if os.path.exists(f"{OUT}/meta.json"):
+    prev_lv = json.load(open(f"{OUT}/meta.json")).get("lead_verification", {})
 for f in os.listdir(f"{WT}/SEED"):
-    shutil.copy(f"{WT}/SEED/{f}", OUT)
+    if f in ("patch.diff", "demo.diff", "meta.json"):
+        shutil.copy(f"{WT}/SEED/{f}", OUT)
 meta = json.load(open(f"{OUT}/meta.json"))
-lv = meta.get("lead_verification", {})
+lv = meta.get("lead_verification", {}) or {k: v for k, v in prev_lv.items() if k in ("demo", "demo_ok", "existing_tests", "history")}
 env = dict(os.environ, RUSTUP_TOOLCHAIN="1.96.0", CARGO_TARGET_DIR="/tmp/seedverify")
 
 def sh(cmd, cwd=WT, timeout=5400):
